@@ -191,6 +191,11 @@ func TestSemaStress(t *testing.T) {
 						case 2:
 							ctx, cancel = context.WithCancel(ctx)
 							go func() { runtime.Gosched(); cancel() }()
+						case 3:
+							// a context cancelled with a custom cause: the error must still be ctx.Err()
+							cctx, ccancel := context.WithCancelCause(ctx)
+							ctx, cancel = cctx, func() { ccancel(nil) }
+							ccancel(errors.New("custom cause"))
 						}
 						err := sem.Acquire(ctx)
 						if err != nil {
